@@ -11,6 +11,8 @@
 (*   Call(f, a, c, mod, out, ran, mem)      mod "normal" | "local" | "ignore"           *)
 (*   Batch(f, args, c, rf, out, ran, mem)   call_batch / map_over_range                 *)
 (*   Forget(f, a, c, mem)   ForgetAll(f, mem)                                           *)
+(*   Par(calls, outs, ran, mem)   the root calls <<f, a, c>> of calls made at the same time by  *)
+(*        one thread each, under some schedule; outs: their outcomes in the order of calls      *)
 (* out: the outcome as nested tuples; ran: <<f, a>> of every body that started, in      *)
 (* order; mem: projection of every memento present afterwards in the key universe.      *)
 EXTENDS ProgSem
@@ -20,6 +22,15 @@ NInit(cfg) == [P |-> cfg.prog, prop |-> cfg.prop, memo |-> {}, store |-> cfg.sto
 Same(x, y) == ToString(x) = ToString(y)
 Key(e) == <<e.f, e.a, e.c>>
 
+\* concurrent root calls: the store and the bodies run are those of making the calls one after the other
+RECURSIVE ParFold(_, _, _, _)
+ParFold(P, memo, calls, i) ==
+  IF i > Len(calls) THEN [memo |-> memo, ran |-> <<>>]
+  ELSE LET r    == Run(P, memo, calls[i][1], calls[i][2], calls[i][3])
+           rest == ParFold(P, r.memo, calls, i + 1)
+       IN [memo |-> rest.memo, ran |-> r.ran \o rest.ran]
+BagOf(s) == [x \in SeqToSet(s) |-> Cardinality({i \in 1..Len(s) : s[i] = x})]
+
 After(st, e) ==
   CASE st.runner = "null" -> [memo |-> st.memo, ran |-> <<>>]
     [] st.store = "null" /\ e.op = "Call" -> [memo |-> {}, ran |-> RunNS(st.P, e.f, e.a, e.c)]
@@ -28,6 +39,7 @@ After(st, e) ==
              Each(j) == IF j > Len(e.args) THEN <<>> ELSE RunNS(st.P, e.f, e.args[j], e.c) \o Each(j + 1)
          IN [memo |-> {}, ran |-> Each(1)]
     [] e.op = "Prevent"   -> [memo |-> st.memo \cup {Key(e)}, ran |-> IF Key(e) \in st.memo THEN <<>> ELSE <<<<e.f, e.a>>>>]
+    [] e.op = "Par"       -> ParFold(st.P, st.memo, e.calls, 1)
     [] e.op = "Call"      -> Run(st.P, st.memo, e.f, e.a, e.c)
     [] e.op = "Batch"     -> RunBatch(st.P, st.memo, e.f, e.args, e.c)
     [] e.op = "Forget"    -> [memo |-> st.memo \ {Key(e)}, ran |-> <<>>]
@@ -69,6 +81,11 @@ Clauses(st, e) ==
    ELSE IF e.op = "Call" THEN <<
       <<"call_outcome_equals_unmemoized_execution", {"C02"}, ~En(st, {"C02"}) \/ (e.exc = "" /\ Same(e.out, ExpCallOut(st, e)))>>,
       <<"bodies_run_exactly_once_per_unmemoized_call", {"C02", "C16", "C19"}, ~En(st, {"C02", "C16", "C19"}) \/ Same(e.ran, post.ran)>> >>
+   ELSE IF e.op = "Par" THEN <<
+      <<"concurrent_callers_receive_the_unmemoized_outcome", {"C02", "C10"}, ~En(st, {"C02", "C10"}) \/
+           (e.exc = "" /\ \A i \in 1..Len(e.calls) : Same(e.outs[i], Den(st.P, e.calls[i][1], e.calls[i][2], e.calls[i][3]).val))>>,
+      <<"each_unmemoized_body_runs_exactly_once_whatever_the_schedule", {"C02", "C10"}, ~En(st, {"C02", "C10"}) \/
+           BagOf(e.ran) = BagOf(post.ran)>> >>
    ELSE IF e.op = "Batch" THEN <<
       <<"batch_result_equals_elementwise_results_in_order", {"C15"}, ~En(st, {"C15"}) \/ (e.exc = "" /\ Same(e.out, ExpBatchOut(st, e)))>>,
       <<"batch_runs_each_unmemoized_distinct_element_once", {"C15"}, ~En(st, {"C15"}) \/ Same(e.ran, post.ran)>> >>
